@@ -234,6 +234,9 @@ def run(ctx):
                 "acyclic re-wiring) under debug and cf, plus unstable-hash inputs under cf; every case is non-trivial; "
                 "distinct = distinct case spec")
     ctx.record_all(ctx.pmap("vp.props.c18:case_one", cases, nproc=8, timeout=600 if quick else 3000))
+    if not quick:
+        from vp import suite
+        ctx.record(suite.run_suite(ctx, ["pydra/engine/tests/test_graph.py", "pydra/compose/tests/test_workflow_run.py"], "lasso"))
     ctx.assumptions = ["a per-worker wall-clock watchdog turns a real hang outside the two monitored loops into inconclusive"]
 
 
